@@ -79,7 +79,7 @@ def run(tier):
     # binding sanity: every scheduled write must have been performed at its yield point
     chk.cov["deny_refused_runs"] = len(gev)
     pc = [e for e in events if e["e"] == "pcopy"]
-    if len(pc) != 4 or not all(e["redirected"] for e in pc):
+    if len(pc) != 8 or not all(e["redirected"] for e in pc):
         raise vp.Broken("pointer-cell runs incomplete: the range-check hook of the backend did not fire: %s" % pc)
     chk.cov["pointer_cell_runs"] = len(pc)
     unperformed = sum(1 for e in events if e.get("unperformed", 0) > 0)
